@@ -259,7 +259,7 @@ class FnDirective:
         self.template = template
 
 
-_ID = re.compile(r"^\[([A-Za-z0-9_.\-]+)\]\s*")
+_ID = re.compile(r"^\[([A-Za-z0-9_.\-|]+)\]\s*")
 
 
 def _parse_quoted(s):
@@ -447,7 +447,15 @@ class Gen:
                 if "external_body" in ln or "assume_specification" in ln or "assume(" in ln or "admit(" in ln \
                         or "#[verifier::external" in ln or "axiom fn" in ln or "#[verifier::exec_allows_no_decreases" in ln:
                     if not s.startswith("//"):
-                        self.trusted.append({"template": os.path.basename(path), "line": i + 1, "gen_line": a, "text": s})
+                        txt = s
+                        j2 = i + 1
+                        while txt.startswith("#[") and j2 < len(tl) and len(txt) < 300:
+                            txt = tl[j2].strip()
+                            j2 += 1
+                            if not txt.startswith("#["):
+                                txt = "external_body " + txt
+                                break
+                        self.trusted.append({"template": os.path.basename(path), "line": i + 1, "gen_line": a, "text": txt})
             i += 1
 
     def emit_type(self, kind, d, path, lineno):
@@ -501,6 +509,18 @@ class Gen:
         contract_only = ("ext" in fd.opts) or (self.body_modules is not None and self.cur_module not in self.body_modules)
         if self.only_fns is not None and (self.cur_module + "::" + fd.qual) not in self.only_fns and not contract_only:
             contract_only = True
+        if self.twin and not contract_only and "notwin" not in fd.opts and not getattr(fd, "_is_twin", False):
+            # vacuity twin: keep the original as a contract (so callers are unaffected) and emit a renamed
+            # copy with the body and one extra postcondition `false`, which must FAIL to verify.
+            import copy
+            orig = copy.deepcopy(fd)
+            orig.opts["ext"] = True
+            self.emit_fn(orig)
+            tw = copy.deepcopy(fd)
+            tw._is_twin = True
+            tw.opts["as"] = fd.opts.get("as", name) + "__twin"
+            self.emit_fn(tw)
+            return
         sig_text = rewrite_signature(sig_text, name, emit_name, fd.opts.get("ret", "r"), fd.opts)
         qual_name = self.cur_module + "::" + (fd.qual if "as" not in fd.opts else (ty + "::" if ty else "") + emit_name)
         rec = {"kind": "fn", "name": qual_name, "source": srcfile, "src_line": src_line, "tags": fd.tags,
@@ -514,8 +534,9 @@ class Gen:
         rec["sig_line"] = a
         order = ["requires", "recommends", "ensures", "returns", "opens_invariants", "no_unwind", "decreases"]
         clauses = list(fd.clauses)
-        if self.twin and not contract_only and "notwin" not in fd.opts:
-            clauses.append(("ensures", "TWIN." + qual_name, "false"))
+        if getattr(fd, "_is_twin", False):
+            clauses.append(("ensures", "TWIN", "false"))
+            rec["twin_of"] = self.cur_module + "::" + fd.qual
         for kind in order:
             cs = [c for c in clauses if c[0] == kind]
             if not cs:
